@@ -44,7 +44,7 @@ for p in props:
         shutil.copy(m.group(1), os.path.join(dst, 'replay-%s.json' % p))
         os.remove(m.group(1))
     results[p] = {'exit': rc, 'lines': lines, 'wall_s': round(time.time() - t0, 1),
-                  'caught': rc == 1, 'with_failing_input': rc == 1 and not any('no-failing-input-found' in l for l in lines),
+                  'caught': rc == 1 and any(l.startswith('VIOLATION') for l in lines), 'with_failing_input': rc == 1 and any(l.startswith('VIOLATION') for l in lines) and not any('no-failing-input-found' in l for l in lines),
                   'replay_kind': (replay or {}).get('kind'), 'relation': (replay or {}).get('relation_or_op')}
     print(p, rc, lines)
 meta = {'breaks_property': prop, 'source': 'independent sub-agent given only the property text and a scratch worktree',
